@@ -24,9 +24,9 @@ PROP = "C01"
 
 def exc_matches(exc, err):
     """does the exception of the real code correspond to the error the I-layer (with the open deviations) predicts?"""
-    if err == "index":       # F14: a residue whose 'graph' is empty is reached by a link
-        return exc["type"] == "IndexError" and "match_link_and_residue_atoms" in exc["site"]
-    return False             # F31 / F32 are repaired: their errors are violations again
+    # no finding is open (F14, F30, F31, F32 repaired): an exception of the code is a violation again.  The hook stays for
+    # the exact classification of a future open finding (error kind of the I-layer with DevAsIs -> exception type and site).
+    return False
 
 
 def classify(case, obs, asis):
@@ -101,7 +101,7 @@ def replay_instance(ck, label, res, res_asis, tier, sd, fmts_for, gp_every):
         raise c.MachineryError("%s exported no cases" % label)
     ffs = u.ffs_of(res)
     asis = {}
-    for a in res_asis.cases():
+    for a in (res_asis.cases() if res_asis is not None else []):
         u.norm_case(a)
         asis.setdefault(u.case_key(a["inp"]), []).append(a)
     work = []
@@ -144,9 +144,9 @@ DEVS = [("FF_Gsmall", "unsorted", "C01_Inv", "m01: residues not sorted by residu
         ("FF_Gsmall", "offbyone", "C01_Inv", "atom offset of merged interactions off by one"),
         ("FF_Msmall", "renumber", "C01_Inv", "F7 (repaired): atom removal renumbers all residue ids from 0"),
         ("FF_Msmall", "keepremoved", "C01_Inv", "m03: interactions of removed atoms kept"),
-        ("FF_Gsmall", "f14", "C01_Inv", "F14 (open): first fragment keeps the block's residue ids"),
+        ("FF_Gsmall", "f14", "C01_Inv", "F14 (repaired fc4ff7c): first fragment keeps the block's residue ids"),
         ("FF_Gsmall", "f31", "C01_Inv", "F31 (repaired): fragments found along depth-first tree edges only"),
-        ("FF_S", "f30", "C01_Inv", "F30 (open): block interactions with equal (section, atoms, version) collapse"),
+        ("FF_S", "f30", "C01_Inv", "F30 (repaired cca8623): block interactions with equal (section, atoms, version) collapse"),
         ("FF_X5", "f32", "C01_Inv", "F32 (repaired): block-copy correspondences looked up by fragment number"),
         ("FF_Msmall", "versioninkey", "C01_Inv", "removed-node-key-equals-version (repaired): write-back tests the version number as an atom"),
         ("FF_Msmall", "modanyres", "C01_Inv", "a modification touching another residue")]
@@ -171,22 +171,25 @@ def run(tier):
                       "comparison modulo the writer's symmetries (a-b = b-a, reversed angles / dihedrals); charges and masses compared as floats"]
     G = "FF_Gq" if quick else "FF_Gt"
     ck.stage("TLC: model + exports + deviations (concurrently)")
-    jobs = [(G, "FF_export.cfg", {"workers": 4, "timeout": 1500}), (G, "FF_asis.cfg", {"workers": 3, "timeout": 1500}),
-            ("FF_S", "FF_export.cfg", {"workers": 2}), ("FF_S", "FF_asis.cfg", {"workers": 2}),
-            ("FF_M", "FF_export.cfg", {"workers": 2}), ("FF_M", "FF_asis.cfg", {"workers": 2}),
-            ("FF_Gsmall", "FF_G_small.cfg", {"workers": 2}),
-            ("FF_X", "FF_export.cfg", {"workers": 2}), ("FF_X", "FF_asis.cfg", {"workers": 2})]
+    asis_cfg = "FF_asis.cfg" if u.OPEN else None       # runs with the open deviations on: only when a finding is open
+    jobs = [(G, "FF_export.cfg", {"workers": 6, "timeout": 1500}), ("FF_S", "FF_export.cfg", {"workers": 2}),
+            ("FF_M", "FF_export.cfg", {"workers": 2}), ("FF_Gsmall", "FF_G_small.cfg", {"workers": 2}), ("FF_X", "FF_export.cfg", {"workers": 2})]
+    if asis_cfg:
+        jobs += [(m, asis_cfg, {"workers": 2, "timeout": 1500}) for m in (G, "FF_S", "FF_M", "FF_X")]
+    nmain = len(jobs)
     jobs += [(m, "FF_dev_%s.cfg" % d, {"workers": 1, "check": False, "timeout": 600}) for m, d, _, _ in DEVS]
     jobs += [(m, "FF_dev_%s.cfg" % r, {"workers": 1, "check": False, "timeout": 600}) for m, r in REACH]
     res = c.tlc_many(jobs, workers_each=2)
-    gx, ga, sx, sa, mx, ma, small, xx, xa = res[:9]
+    gx, sx, mx, small, xx = res[:5]
+    ga, sa, ma, xa = res[5:9] if asis_cfg else (None, None, None, None)
     for r, what in ((gx, "G"), (sx, "S"), (mx, "M"), (small, "small+Dom_Inv"), (xx, "X")):
         ck.model_must_hold(r, "C01_Inv/Base_Inv/Layout_Inv on instance " + what)
     for r in (ga, sa, ma, xa):
-        ck.add_tlc(r)
-    for (m, d, inv, what), r in zip(DEVS, res[9:9 + len(DEVS)]):
+        if r is not None:
+            ck.add_tlc(r)
+    for (m, d, inv, what), r in zip(DEVS, res[nmain:nmain + len(DEVS)]):
         ck.model_must_refute(r, inv, what)
-    for (m, rname), r in zip(REACH, res[9 + len(DEVS):]):
+    for (m, rname), r in zip(REACH, res[nmain + len(DEVS):]):
         ck.model_must_refute(r, rname, "non-vacuity: " + rname)
     ck.extra["deviations_refuted"] = [d for _, d, _, _ in DEVS]
 
